@@ -37,6 +37,7 @@ const (
 	BodyGuard  = 2 // (if (next-method-p) (call-next-method ...) "none")
 	BodyNoArgs = 3 // (call-next-method) with no arguments: same arguments
 	BodyFlat   = 4 // as BodyNext, written with function calls only (no let)
+	BodyTwice  = 5 // calls the next method twice; the value of the second call is wrapped
 )
 
 // Method is one defined method.
@@ -75,14 +76,27 @@ func Tag(qual string, spec []int, ver int) string {
 // State is the set of methods of one generic function.
 type State struct {
 	M map[string]*Method
+	// Fam is the class family of the arguments: "" for a chain, "dia" for
+	// the diamond 3 > 2 > 1 > 0 in which the classes 2 and 1 are unrelated
+	// siblings below 0 and 3 inherits from both (precedence list 3 2 1 0).
+	Fam string
 }
 
-// New returns the empty method set.
+// New returns the empty method set over a class chain.
 func New() *State { return &State{M: map[string]*Method{}} }
+
+// NewFam returns the empty method set over the given class family.
+func NewFam(fam string) *State {
+	st := New()
+	if fam == "dia" {
+		st.Fam = fam
+	}
+	return st
+}
 
 // Clone copies the state.
 func (st *State) Clone() *State {
-	c := New()
+	c := NewFam(st.Fam)
 	for k, m := range st.M {
 		c.M[k] = m
 	}
@@ -120,12 +134,17 @@ func (st *State) String() string {
 	return strings.Join(tags, " ")
 }
 
-func applicable(spec, arg int) bool {
+// applicable tells whether the class spec is in the precedence list of an
+// object whose class is arg.
+func (st *State) applicable(spec, arg int) bool {
 	if spec == T {
 		return true
 	}
 	if arg == Out {
 		return false
+	}
+	if st.Fam == "dia" {
+		return spec == arg || spec == 0 || arg == 3
 	}
 	return spec <= arg
 }
@@ -158,7 +177,7 @@ func (st *State) Applicable(qual string, args []int) []*Method {
 		}
 		ok := true
 		for i, s := range m.Spec {
-			if !applicable(s, args[i]) {
+			if !st.applicable(s, args[i]) {
 				ok = false
 				break
 			}
@@ -240,6 +259,9 @@ func (st *State) Dispatch(args []int) (out Outcome) {
 			}
 			emit(tag + ">")
 			return `("` + tag + `" "none")`
+		}
+		if m.Body == BodyTwice {
+			walk(i + 1)
 		}
 		v := walk(i + 1)
 		emit(tag + ">")
